@@ -24,7 +24,7 @@ def pargs(N):
 
 
 def trace():
-    g = Gen()
+    g = Gen16()
     for cls, tag in CLASSES:
         for C, n in CONFIGS:
             ns = shim.base_namespace()
@@ -58,7 +58,7 @@ def trace():
                     for i in range(N):
                         g.add('%s_mask_%d_%d_%d_%d' % (pre, i, ch, y, x), args, masks[i, ch, y, x])
                         g.add('%s_target_%d_%d_%d_%d' % (pre, i, ch, y, x), args, targets[i, ch, y, x])
-    return g
+    return trace_defocus(g)
 
 
 def self_check(g, rng, make_loss, slice_fn, log=print):
@@ -126,3 +126,105 @@ def self_check(g, rng, make_loss, slice_fn, log=print):
                                     bad += 1
                                     if bad <= 5: log('self-check mismatch', name, g.evalf(name, env), float(arr[i, ch, y, x]))
     return bad, n
+
+
+# ---------------------------------------------------------------- add_defocus_blur (conv2d as an operator)
+# The Gaussian kernel builder and conv2d are replaced by an uninterpreted operator
+#     blur k p a b c d  =  pixel p of conv2d([[a, b], [c, d]], normalised Gaussian kernel of integer sigma k, 'same')
+# and the data-dependent guard `if torch.sum(targets_cache[j]) > 0` is traced along the path where every
+# guard holds; the guard expressions are emitted too (the tie states the path condition on them).
+DEFOCUS_CONFIGS = [(1, 2), (1, 3)]      # (channels, planes); blur_ratio = 1.0 -> sigma level |i - j|
+BLUR_SIZE = 3
+
+
+class _Kernel:
+    def __init__(s, nsigma):
+        s.ns = (float(nsigma[0]), float(nsigma[1]))
+        if s.ns[0] != s.ns[1] or not s.ns[0].is_integer():
+            raise shim.TraceError('kernel with nsigma %r is outside the recipe' % (nsigma,))
+    def to(s, *a, **k): return s
+    def unsqueeze(s, d): return s
+    def __truediv__(s, o):
+        if o != 'kernel-sum': raise shim.TraceError('kernel divided by something that is not its own sum')
+        return s
+
+
+class _Guard:
+    def __init__(s, e, log): s.e, s.log = e, log
+    def __gt__(s, o):
+        if o != 0: raise shim.TraceError('guard compared with %r' % (o,))
+        s.log.append(s.e)
+        return True
+
+
+def _defocus_namespace(guards):
+    ns = shim.base_namespace()
+    t = ns['torch'].__dict__
+    orig_sum = t['sum']
+
+    def tsum(x, axis=None, dim=None, **k):
+        if isinstance(x, _Kernel):
+            return 'kernel-sum'
+        if axis is None and dim is None:
+            return _Guard(orig_sum(x), guards)
+        return orig_sum(x, axis=axis, dim=dim, **k)
+
+    def conv2d(inp, ker, padding=None, **k):
+        if padding != 'same' or not isinstance(ker, _Kernel) or tuple(inp.shape) != (1, 1, H, W) or k:
+            raise shim.TraceError('conv2d call outside the recipe')
+        a = [inp[0, 0, y, x] for y in range(H) for x in range(W)]
+        out = np.empty((1, 1, H, W), dtype=object)
+        for y in range(H):
+            for x in range(W):
+                out[0, 0, y, x] = shim.E('uf', 'blur %d%%nat %d%%nat' % (int(ker.ns[0]), 2 * y + x), *[shim.E.lift(v) for v in a])
+        return shim.wrap(out)
+
+    t['sum'] = tsum
+    t['nn'] = SimpleNamespace(functional=SimpleNamespace(conv2d=conv2d))
+    ns['generate_2d_gaussian'] = lambda kernel_length, nsigma, *a, **k: _Kernel(nsigma)
+    return ns
+
+
+class Gen16(Gen):
+    """definitions that mention the blur operator take it as their first argument"""
+    BLUR = '(blur : nat -> nat -> R -> R -> R -> R -> R) '
+
+    def text(self):
+        out = []
+        for blk in Gen.text(self).split('\n\n'):
+            if '(blur ' in blk and blk.startswith('Definition '):
+                head, rest = blk.split(' ', 2)[1], blk.split(' ', 2)[2]
+                blk = 'Definition %s %s%s' % (head, self.BLUR, rest)
+            out.append(blk)
+        return '\n\n'.join(out)
+
+
+def trace_defocus(g):
+    for C, n in DEFOCUS_CONFIGS:
+        guards = []
+        ns = _defocus_namespace(guards)
+        shim.load('odak/learn/wave/loss.py', ['set_targets', 'add_defocus_blur'], ns, cls='multiplane_loss')
+        me = SimpleNamespace(target_image=shim.sym('x', (C, H, W)), target_depth=shim.sym('d', (H, W)),
+                             number_of_planes=n, device='cpu', target_blur_size=BLUR_SIZE, blur_ratio=1.0,
+                             multiplier=shim.var('mult'))
+        ns['set_targets'](me)
+        ns['add_defocus_blur'](me)
+        assert me.targets.shape == (n, C, H, W), me.targets.shape
+        assert len(guards) == C * n * n, len(guards)
+        args = xargs(C) + DARGS + ['mult']
+        pre = 'df_c%dn%d' % (C, n)
+        k = 0
+        for ch in range(C):
+            for i in range(n):
+                for j in range(n):
+                    if i == 0:
+                        g.add('%s_guard_%d_%d' % (pre, j, ch), args, guards[k])
+                    elif guards[k] is not guards[k - n * i]:
+                        raise shim.TraceError('the guard of plane %d changes between target planes' % j)
+                    k += 1
+        for i in range(n):
+            for ch in range(C):
+                for y in range(H):
+                    for x in range(W):
+                        g.add('%s_target_%d_%d_%d_%d' % (pre, i, ch, y, x), args, me.targets[i, ch, y, x])
+    return g
